@@ -38,10 +38,19 @@ class C02(Prop):
     ]
 
     def to_coq(self, I, c):
+        # "mod": the matchers rewrote the filter values they were given.  There is no such observation in the
+        # model; the case is printed with an answer no matcher can give (the list verdict, resp. the initial Done,
+        # negated), so that model and oracle both reject it.
+        mod = bool(c.get("mod"))
         if c["k"] == "match":
+            per = c.get("per") or []
+            anyv = bool(c["any"])
+            if mod:
+                anyv = not any(per)
             return "(CMatch %s %s %s %s)" % (cevent(I, c["e"]), cfilters(I, c["fs"]),
-                                            clist(c.get("per") or [], cbool, "bool"), cbool(c["any"]))
-        return "(CSeq %s %s %s %s)" % (cfilters(I, c["fs"]), cevents(I, c.get("es") or []), cbool(c["done0"]),
+                                            clist(per, cbool, "bool"), cbool(anyv))
+        return "(CSeq %s %s %s %s)" % (cfilters(I, c["fs"]), cevents(I, c.get("es") or []),
+                                       cbool(bool(c["done0"]) != mod),
                                        clist(c.get("steps") or [], lambda s: cpair(cbool(s[0]), cbool(s[1])),
                                              "(bool * bool)%type"))
 
@@ -58,7 +67,7 @@ class C02(Prop):
         return None
 
     def shrink(self, c):
-        c = {k: v for k, v in c.items() if k not in ("per", "any", "done0", "steps")}
+        c = {k: v for k, v in c.items() if k not in ("per", "any", "done0", "steps", "mod")}
         for fs in drop_one(c["fs"]):
             yield dict(c, fs=fs)
         if c["k"] == "seq":
